@@ -416,8 +416,43 @@ impl Prop for C06 {
         fails
     }
     fn check(&self, t: &mut Tape, ctx: &mut Ctx) -> Verdict {
-        let (subs, cfg) = gen_random(t, ctx.tier);
-        let input = render(&subs);
+        let (subs, mut cfg) = gen_random(t, ctx.tier);
+        let mut input = render(&subs);
+        // The same diff as git colours it (default palette: removed lines red, added lines green with
+        // the marker painted on its own) - which carries no information and must not change what
+        // is emphasised - also when the user's git config names other colours for color.diff.old/new.
+        let mut extra = t.fork(3);
+        if extra.chance(1, 8) {
+            let text = String::from_utf8_lossy(&input).into_owned();
+            let mut col = String::new();
+            for l in text.split_inclusive('\n') {
+                let body = l.trim_end_matches('\n');
+                if body.starts_with('-') && !body.starts_with("---") {
+                    col.push_str(&format!("\x1b[31m{}\x1b[m", body));
+                } else if body.starts_with('+') && !body.starts_with("+++") {
+                    col.push_str(&format!("\x1b[32m+\x1b[m\x1b[32m{}\x1b[m", &body[1..]));
+                } else if body.starts_with("@@") {
+                    col.push_str(&format!("\x1b[36m{}\x1b[m", body));
+                } else if body.starts_with("diff ") || body.starts_with("index ") || body.starts_with("--- ") || body.starts_with("+++ ") {
+                    col.push_str(&format!("\x1b[1m{}\x1b[m", body));
+                } else {
+                    col.push_str(body);
+                }
+                if l.ends_with('\n') {
+                    col.push('\n');
+                }
+            }
+            input = col.into_bytes();
+            ctx.class("input-coloured-by-git");
+            if extra.coin() {
+                let section = "[color \"diff\"]\n\told = red bold\n\tnew = green bold\n";
+                cfg.gitconfig = Some(match cfg.gitconfig.take() {
+                    Some(g) => format!("{}\n{}", g, section),
+                    None => section.to_string(),
+                });
+                ctx.class("color.diff.old/new-configured");
+            }
+        }
         ctx.class(&format!("distance={}", cfg.get("max-line-distance").unwrap_or("")));
         ctx.class_if(subs.iter().any(|s| s.single_run.is_some()), "single-run-pair");
         let out = match exec::run_cfg(&cfg, ctx, &input) {
